@@ -23,6 +23,7 @@ License: 3-clause BSD. (See the COPYRIGHT file)
 from __future__ import annotations
 
 import socket
+from math import isfinite
 
 from typing import TYPE_CHECKING, ClassVar
 
@@ -73,7 +74,11 @@ class TrafficRate(ExtendedCommunity):
         return value
 
     def __repr__(self) -> str:
-        return 'rate-limit:%d' % self.rate
+        rate = self.rate
+        if not isfinite(rate):
+            # the four octets are an IEEE float chosen by the peer: infinity and NaN have no integer form
+            return 'rate-limit:%s' % rate
+        return 'rate-limit:%d' % rate
 
     @classmethod
     def unpack_attribute(cls, data: Buffer, negotiated: Negotiated | None = None) -> TrafficRate:
@@ -111,7 +116,11 @@ class TrafficRatePackets(ExtendedCommunity):
         return max(value, 0.0)
 
     def __repr__(self) -> str:
-        return 'rate-limit:%d:packets' % self.rate
+        rate = self.rate
+        if not isfinite(rate):
+            # the four octets are an IEEE float chosen by the peer: infinity and NaN have no integer form
+            return 'rate-limit:%s:packets' % rate
+        return 'rate-limit:%d:packets' % rate
 
     @classmethod
     def unpack_attribute(cls, data: Buffer, negotiated: Negotiated | None = None) -> TrafficRatePackets:
